@@ -19,7 +19,10 @@ evaluated for *this* configuration, macros stay unexpanded, so `COAP_API`, `coap
      functions that release / take the lock themselves (release windows around blocking waits, callback-release
      macros, COAP_API wrappers, coap_new_context) are listed with their balance facts.
 
-Output: JSON {api: [...], callbacks: [...], lockfns: [...], files: n, functions_scanned: n}.
+     It also lists every function that has code under the lock (entered held, or taking the lock itself) with the number
+     of calls it makes there to a lock-taking public API function (`heldfns`; must be 0: library code never calls the API).
+
+Output: JSON {api: [...], callbacks: [...], lockfns: [...], heldfns: [...], files: n, functions_scanned: n}.
 """
 import json, os, re, subprocess, sys
 from concurrent.futures import ThreadPoolExecutor
@@ -421,7 +424,8 @@ def scan(bdir, repo):
         raise RuntimeError("lockbal selftest failed:\n" + "\n".join(bad))
     lb = lockbal.analyse([(os.path.basename(src), text) for (src, _), text in zip(srcs, texts)])
     return {"api": api, "callbacks": cbs, "files": len(srcs), "types": len(types), "fields": sorted(fields),
-            "lockfns": lb["functions"], "functions_scanned": lb["scanned"], "needs_lock": lb["needsLock"]}
+            "lockfns": lb["functions"], "functions_scanned": lb["scanned"], "needs_lock": lb["needsLock"],
+            "heldfns": lb["heldfns"]}
 
 
 if __name__ == "__main__":
